@@ -60,7 +60,7 @@ AllDags(k) == SUBSET { <<a, b>> \in (1..k) \X (1..k) : a < b }
 Init ==
   /\ n \in 0..N
   /\ E \in AllDags(n)
-  /\ C = Closure(n, E)
+  /\ C = Reach(n, E)
   /\ es = SeqOfPairs(E)
   /\ cnt = [f \in 1..n |-> IF Order = "fwd" THEN Cardinality(Preds(E, f)) ELSE Cardinality(Succs(E, f))]
   /\ \E p \in Perms({ f \in 1..n : cnt[f] = 0 }) : readyQ = p
